@@ -88,6 +88,12 @@ class C06(CheckBase):
         from sdc11073 import observableproperties as op
         with worldb.node(worldb.CONSUMER_IPS[0]):
             cm = ConsumerMdib(c)
+
+            class _CountingList(list):
+                def append(self_, item):  # noqa: N805
+                    ctx.probe('race_buffered')
+                    list.append(self_, item)
+            cm._buffered_notifications = _CountingList()
         events = []
         op.strongbind(cm, sequence_or_instance_id_changed_event=lambda v: events.append(v))
         # middlebox in front of the consumer's notification listener
